@@ -134,7 +134,11 @@ def case_structure(case):
         t = TIME_AXES[tname]
         with warnings.catch_warnings():
             warnings.simplefilter("ignore")
-            labels, M, mc, ds = B.calc_matrix(md, params, "d1", [0.0], t)
+            # primed by the sibling schemes with the same K-matrix and all population in the first declared
+            # compartment / spread evenly (a decision remembered per K-matrix must not outlive its initial concentration)
+            first = dict(params, **{f"j.{i+1}": (1.0 if i == case.get("order", list(range(n)))[0] else 0.0) for i in range(n)})
+            even = dict(params, **{f"j.{i+1}": 1.0 for i in range(n)})
+            labels, M, mc, ds = B.calc_matrix(md, params, "d1", [0.0], t, prime=[(md, first), (md, even)])
         order = case.get("order", list(range(n)))
         want_labels = [names[i] for i in order]
         if labels != want_labels:
